@@ -57,6 +57,7 @@ def r_cmp(F, R):
         R.check("R-CMP", b.label(), True, construct="delegates to a comparator",
                 where=b.where(), detail="%d comparator calls" % len(comps), nontrivial=False)
         names = set()
+        element_level = False
         for (bi, t, tag) in comps:
             where = "%s:%s" % (b.file, t["line"])
             fam_ok = tag in FAMILY[b.name]
@@ -68,6 +69,11 @@ def r_cmp(F, R):
             if b.name in ("eq", "ne") and r0 == {("arg", 2)} and r1 == {("arg", 1)}:
                 order_ok = True  # equality is symmetric: either order describes the same relation
             ad = [c[1][1] for c in calls_in(a0) + calls_in(a1) if c[1][1] in BAD_ADAPTORS]
+            if any(c[1] == ("Iterator", "next") for c in calls_in(a0) + calls_in(a1)):
+                # compares two *elements* pulled from the operands' iterators: a hand-written
+                # lock-step loop.  Family and operand order are still decided here; how the
+                # element results are folded into the answer is value-level.
+                element_level = True
             names.add(tag[1])
             R.check("R-CMP", b.label(), fam_ok and order_ok and not ad,
                     construct="%s::%s(self-side, other-side)" % tag, where=where,
@@ -76,6 +82,10 @@ def r_cmp(F, R):
                         "; adaptors %s" % ad if ad else ""))
         R.check("R-CMP", b.label(), len(names) <= 1, construct="all arms use the same comparator",
                 where=b.where(), detail="comparators used: %s" % sorted(names), nontrivial=len(comps) > 1)
+        if element_level:
+            R.undecided_site("R-CMP", b.label(), "hand-written element loop: how the element comparisons are "
+                             "folded into the result is not decided (family and operand order are)")
+            continue
         # the result is returned unchanged (possibly through unwrap for Ord::cmp)
         comp_blocks = {bi for (bi, _, _) in comps}
         ret_ok = True
